@@ -17,7 +17,12 @@ ATTR_NAMES = ["href", "class", "id", "title", "alt", "name", "src", "lang"]
 RESERVED = {"nothing", "default", "options", "repeat", "attrs", "CONTEXTS", "macros", "lib"}
 
 HOSTILE = ['<b>&"\'', 'a<script>alert(1)</script>', '"onmouseover="x', "'", "&amp;", "]]>", "<!--", "-->", "</p>",
-           "<zq9 x=\"1\">", "&lt;", "a&b", "<", ">", "\"", "x\" y=\"z", "é<ü>", "<?pi?>", "&#60;i&#62;", "=", "/>"]
+           "<zq9 x=\"1\">", "&lt;", "a&b", "<", ">", "\"", "x\" y=\"z", "é<ü>", "<?pi?>", "&#60;i&#62;", "=", "/>",
+           # values that look escaped at source (a complete reference) AND carry raw markup
+           "Fish &amp; Chips<b>x</b>", "it&#39;s <i>", "&lt;<zq9>", "&#x3c;<u a=\"1\">", "<em>&nbsp;</em>"]
+# fragments for string-content variation: references, markup, separators
+FRAGMENTS = ["&amp;", "&#60;", "&#x3e;", "&lt;", "&quot;", "<b>", "</b>", "<i x=\"", "<", ">", "&", "\"", "a", "b", ";", "=", "/", " ", "#",
+             "<script>", "</p>", "<!--", "-->"]
 BENIGN = ["hello", "world", "a", "Item", "x1", "some text", "Z", "foo bar"]
 
 
@@ -169,11 +174,80 @@ class RefCV:
 CV_FACTORY = [RefCV]        # the implementation side puts simpleTALES.ContextVariable here
 
 
+class IterLike:
+    """repeat sources that are not sequences (no len(), no indexing): simpleTAL wraps them in IteratorRepeatVariable.
+    `remaining()` is for the harness only (how many items are still to come)."""
+    kind = "?"
+
+    def __str__(self):
+        return "(%s)" % self.kind
+    __repr__ = __str__
+
+
+class OneShot(IterLike):
+    """an iterator: __iter__ returns itself, exhausted after one pass (like a generator)"""
+    kind = "iterator"
+
+    def __init__(self, items):
+        self._items = list(items)
+        self._pos = 0
+
+    def __iter__(self):
+        return self
+
+    def __next__(self):
+        if self._pos >= len(self._items):
+            raise StopIteration
+        self._pos += 1
+        return self._items[self._pos - 1]
+
+    def remaining(self):
+        return len(self._items) - self._pos
+
+
+class NextOnly(IterLike):
+    """has __next__ but no __iter__ (the second branch of cmdRepeat)"""
+    kind = "next-only"
+
+    def __init__(self, items):
+        self._items = list(items)
+        self._pos = 0
+
+    def __next__(self):
+        if self._pos >= len(self._items):
+            raise StopIteration
+        self._pos += 1
+        return self._items[self._pos - 1]
+
+    def remaining(self):
+        return len(self._items) - self._pos
+
+
+class Iterable(IterLike):
+    """produces a fresh iterator on every __iter__ call, has no length"""
+    kind = "iterable"
+
+    def __init__(self, items):
+        self._items = list(items)
+
+    def __iter__(self):
+        return OneShot(self._items)
+
+    def remaining(self):
+        return len(self._items)
+
+
+ITER_KINDS = {"i": OneShot, "n": NextOnly, "g": Iterable}
+ITER_NAMES = ["it1", "it2", "g1"]     # not in CTX_NAMES: only the iterator scenarios use them
+
+
 def build_value(spec, counter=None):
     counter = counter if counter is not None else [0]
     k = spec[0]
     if k == "cv":
         return CV_FACTORY[0](build_value(spec[1], counter))
+    if k == "it":
+        return ITER_KINDS[spec[1]]([build_value(x, counter) for x in spec[2]])
     if k == "s":
         return spec[1]
     if k == "n":
@@ -274,6 +348,11 @@ def gen_context(rng, hostile=True):
                 ctx[name] = gen_items(rng, hostile)
         elif rng.random() < 0.8:
             ctx[name] = gen_value(rng, 0, hostile, CTX_KINDS.get(name))
+    # iterators / generators as repeat sources: empty, one item, several; one-shot ones are exhausted by their first loop
+    for name in ITER_NAMES:
+        n = rng.choice([0, 0, 1, 2, 3])
+        items = [rng.choice([["s", gen_string(rng, hostile)], ["n", rng.choice([0, 7])], ["s", "x"]]) for _ in range(n)]
+        ctx[name] = ["it", "g" if name == "g1" else rng.choice(["i", "i", "n"]), items]
     # indirection keys (never mutated by the C18 string-content variation)
     ctx["k1"] = ["s", rng.choice(["s1", "l1", "d1", "nope", "k"])]
     ctx["k2"] = ["s", rng.choice(["k", "name", "0", "label"])]
@@ -290,6 +369,12 @@ def vary_strings(rng, spec, hostile=True):
         # no apostrophe: repr() of a str holding both quote kinds is longer, which would change the
         # *length* of str(list) / str(dict) values (lengths must stay equal in the comparison)
         alphabet = "<>&\"ab=/ " if hostile else "abcxyz"
+        if hostile and n >= 4 and rng.random() < 0.5:
+            # whole fragments (complete references next to raw markup), cut to the same length
+            out = ""
+            while len(out) < n:
+                out += rng.choice(FRAGMENTS)
+            return ["s", out[:n]]
         return ["s", "".join(rng.choice(alphabet) for _ in range(n))]
     if k == "l":
         return ["l", [vary_strings(rng, x, hostile) for x in spec[1]]]
@@ -297,6 +382,8 @@ def vary_strings(rng, spec, hostile=True):
         return ["d", [[a, vary_strings(rng, b, hostile)] for a, b in spec[1]]]
     if k in ("c", "cv"):
         return [k, vary_strings(rng, spec[1], hostile)]
+    if k == "it":
+        return ["it", spec[1], [vary_strings(rng, x, hostile) for x in spec[2]]]
     return spec
 
 
@@ -310,6 +397,8 @@ def benign_strings(spec):
         return ["d", [[a, benign_strings(b)] for a, b in spec[1]]]
     if k in ("c", "cv"):
         return [k, benign_strings(spec[1])]
+    if k == "it":
+        return ["it", spec[1], [benign_strings(x) for x in spec[2]]]
     return spec
 
 
@@ -654,10 +743,34 @@ def _probe(rng, expr_pool):
 
 def gen_scenario(rng, opts, sc):
     kind = rng.choice(["callable-path", "same-name-loops", "shadow", "after-loop", "global-in-loop", "false-cond-define",
-                       "nested-loops", "indirect"] + (["macro-in-loop"] if (opts.metal and sc.macros) else []))
+                       "nested-loops", "indirect", "iterator-loop", "iterator-loop"] + (["macro-in-loop"] if (opts.metal and sc.macros) else []))
     key = rng.choice(ITEM_KEYS)
     seq, seq2 = rng.choice([("m1", "m2"), ("m2", "m1"), ("l1", "m1"), ("m1", "l2"), ("d3/seq", "m1")])
     var = rng.choice(["i", "j", "it", "row"])
+    if kind == "iterator-loop":
+        # repeat over things that are not sequences (iterators, generators: possibly empty, exhausted by an earlier loop),
+        # inside an element with a local define, possibly inside a loop over a list; the define's variable, the loop
+        # variable and the repeat variable are looked at afterwards
+        it = rng.choice(ITER_NAMES)
+        name = rng.choice(["x", "y", "loc"])
+        src = rng.choice([it, it, "%s | l1" % it, "nope | %s" % it])
+        loop = Elem(rng.choice(["li", "p", "td"]), tal={"repeat": "%s %s" % (var, src)},
+                    children=[_probe(rng, [var, "repeat/%s/number" % var, "repeat/%s/letter" % var, "string:${repeat/%s/index}:${%s}" % (var, var),
+                                           "%s | string:no-%s" % (name, name)])])
+        if rng.random() < 0.4:
+            loop.tal["define"] = "%s%s string:in-loop" % (rng.choice(["", "local "]), rng.choice(["y", "loc", "z9"]))
+        if rng.random() < 0.3:
+            loop.tal["content"] = var
+        kids = [loop]
+        if rng.random() < 0.6:      # the same source again: a one-shot iterator is exhausted now
+            kids.append(Elem("b", tal={"repeat": "%s %s" % (rng.choice([var, "j2"]), it)}, children=[Text("again")]))
+        kids.append(_probe(rng, ["%s | string:no-%s" % (name, name), "%s | string:gone" % var, "exists:repeat/%s" % var,
+                                 "repeat/%s/number | string:none" % var]))
+        inner = Elem("div", tal={"define": "%s%s %s" % (rng.choice(["", "local "]), name, rng.choice(["s1", "string:outer", "n1"]))}, children=kids)
+        if rng.random() < 0.4:
+            inner = Elem("ul", tal={"repeat": "row %s" % rng.choice(["l1", "m1", "l2"])}, children=[inner])
+        return [inner,
+                _probe(rng, ["%s | string:undefined" % name, "exists:%s" % name, "%s | string:gone" % var, "exists:repeat/%s" % var])]
     if kind == "callable-path":
         base = rng.choice(["f2", "d3/fn", "cv2", "cv1", "f1", "d3/seq/0", "d1/x"])
         pool = ["exists:%s/%s" % (base, key), "nocall:%s/%s" % (base, key), "not:exists:%s/%s" % (base, key),
